@@ -6,6 +6,7 @@ import (
 	"path/filepath"
 	"runtime/debug"
 	"strings"
+	"syscall"
 
 	"golang.org/x/telemetry/internal/counter"
 	"golang.org/x/telemetry/internal/telemetry"
@@ -485,8 +486,37 @@ type parseOutcome struct {
 
 // parseBounded calls counter.Parse on the scheduler goroutine with a loop
 // budget; a panic or an exhausted budget is returned as a special error.
+// guarded returns a copy of data that ends on the last byte of a mapped page
+// followed by a page without access rights: a read of even one byte beyond the
+// slice faults instead of quietly reading the allocator's neighbour. The copy's
+// first byte is 8-aligned only if len(data) is a multiple of 8, as for any
+// caller's slice; free releases the region.
+func guarded(data []byte) (cp []byte, free func()) {
+	const pg = 4096
+	n := (len(data) + pg - 1) / pg * pg
+	region, err := syscall.Mmap(-1, 0, n+pg, syscall.PROT_READ|syscall.PROT_WRITE, syscall.MAP_ANON|syscall.MAP_PRIVATE)
+	if err != nil {
+		return data, func() {}
+	}
+	if syscall.Mprotect(region[n:], syscall.PROT_NONE) != nil {
+		syscall.Munmap(region)
+		return data, func() {}
+	}
+	cp = region[n-len(data) : n : n]
+	copy(cp, data)
+	return cp, func() { syscall.Munmap(region) }
+}
+
 func parseBounded(name string, data []byte) (f *counter.File, err error) {
 	simrt.ResetSchedTick()
+	if len(data)%8 == 0 {
+		// (a file image of a whole number of words, as every file the library
+		// wrote: the copy keeps the alignment a caller's buffer has)
+		cp, free := guarded(data)
+		data = cp
+		defer free()
+		defer debug.SetPanicOnFault(debug.SetPanicOnFault(true))
+	}
 	defer func() {
 		if r := recover(); r != nil {
 			if ul, ok := r.(simrt.UnboundedLoop); ok {
